@@ -439,6 +439,9 @@ func TestGenerated(t *testing.T) {
 	hx.Check(t, test, hx.N(500, 15000), func(rt *rapid.T) {
 		cfg := gen.DefaultCfg()
 		cfg.Off = map[string]bool{"retattr-align": true, "freeze-metadata": true}
+		// a third of the cases carry a debug-info graph: locals are then also referenced from metadata
+		// operands of calls (llvm.dbg.value(metadata T %x, ...), !DIArgList(T %a, T %b))
+		cfg.DebugInfo = rapid.IntRange(0, 2).Draw(rt, "debuginfo") == 0
 		m, feats := gen.Module(rt, cfg)
 		gen.SparseMetadataIDs(rt, m)
 		noise := gen.DrawNoiseWithAliases(rt)
